@@ -630,7 +630,7 @@ package internal
 //@   property C07 C19
 //@   requires reqURL != nil                                                          # name: url-non-nil
 //@   requires allRefsNonNil(refs)                                                    # name: refs-non-nil
-//@   assigns storeWrites, deletedKeys, indexRead, lastResolved
+//@   assigns storeWrites, deletedKeys, indexRead, lastResolved, lastSameOrigin
 //@   ensures deletedKeys[key]                                                        # name: index-deleted
 //@   ensures forall i int :: 0 <= i && i < len(refs) ==> deletedKeys[refs[i].ResponseID]     # name: every-variant-deleted
 //@   ensures forall x string :: old(deletedKeys)[x] ==> deletedKeys[x]               # name: deletions-accumulate
@@ -712,6 +712,8 @@ package internal
 //@   ensures result0 == resp && storeWrites != old(storeWrites) ==> lastStoredResp == resp && lastStoredReqTime == ctx.Start && lastStoredRespTime == ctx.End && lastStoredRefIndex == ctx.RefIndex    # name: full-reply-replaces-the-matched-variant   props: C08
 //@   ensures result0 == old(ctx.Stored.Data) ==> storeWrites == old(storeWrites)                   # name: handler-does-not-store-the-merged-response
 //@   ensures result0 == old(ctx.Stored.Data) && err == nil && resp.StatusCode == 304 ==> statusIs(result0.Header, "REVALIDATED", true)       # name: revalidated-marked   props: C11
+//@   ensures result0 == old(ctx.Stored.Data) && err == nil && resp.StatusCode == 304 ==> (forall k string :: old(has(resp.Header, k)) && !old(omitted304(resp.Header, k)) && k != "X-Httpcache-Status" && k != "X-From-Cache" ==> has(result0.Header, k) && get(result0.Header, k) == old(get(resp.Header, k)))   # name: a-304-freshens-the-stored-fields   props: C01 C02 C11 C08
+//@   ensures result0 == old(ctx.Stored.Data) && err == nil && resp.StatusCode == 304 ==> mapUnchanged(resp.Header)       # name: the-304-itself-is-left-as-received   props: C01 C02 C11 C08
 //@   ensures result0 == old(ctx.Stored.Data) && !(err == nil && resp.StatusCode == 304) ==> statusIs(result0.Header, "STALE", true) && (exists n int :: hget(result0.Header, "Age") == itoa(n) && n >= secsOf(ageIn))   # name: stale-if-error-marked   props: C11
 //@   let ncS = unquote(vs["no-cache"])
 //@   ensures result0 == old(ctx.Stored.Data) && !(err == nil && resp.StatusCode == 304) && hs["no-cache"] ==> (forall j int :: 0 <= j && j < csvN(ncS) && !cacheOwnField(canon(csvAt(ncS, j))) ==> !has(result0.Header, canon(csvAt(ncS, j))))   # name: stale-if-error-strips-no-cache-fields   props: C02
@@ -720,7 +722,7 @@ package internal
 
 //@ func (*validationResponseHandler).HandleValidationResponse
 //@   implements ValidationResponseHandler.HandleValidationResponse
-//@   property C11
+//@   property C11 C01
 //@   requires r != nil && r.l != nil && r.clock != nil && r.ci != nil && r.ce != nil && r.siep != nil && r.rs != nil
 
 // every element TrimmedCSVCanonicalSeq hands on is the canonical header name of the list element it
@@ -991,14 +993,16 @@ package internal
 //@   property C07
 //@   nosafety
 //@   requires r != nil && r.cache != nil && r.cke != nil && reqURL != nil && deleteFn != nil
-//@   assigns storeWrites, deletedKeys, indexRead, lastResolved
+//@   assigns storeWrites, deletedKeys, indexRead, lastResolved, lastSameOrigin
 //@   ensures forall x string :: old(deletedKeys)[x] ==> deletedKeys[x]                                     # name: deletions-accumulate
+//@   loop 0 invariant lastResolved != old(lastResolved) && lastSameOrigin ==> deletedKeys[urlKeyOf(lastResolved)]         # name: a-same-origin-reference-is-invalidated-before-the-next-field-is-examined
 //@   callsite url.Parse :: rawURL == hget(respHeader, canon(hdr))                                          # name: the-reference-is-the-value-of-the-field-examined
 //@   callsite ResolveReference :: u == reqURL                                                              # name: references-are-resolved-against-the-request-uri
 //@   callsite sameOrigin :: a == reqURL && b == lastResolved                                                # name: origin-of-the-resolved-uri-is-compared-with-the-requests
 //@   callsite URLKey :: u == lastResolved                                                                   # name: the-key-invalidated-is-the-resolved-uris
 //@   loop 0 invariant forall x string :: old(deletedKeys)[x] ==> deletedKeys[x]
 //@   rangefunc 0 invariant forall x string :: old(deletedKeys)[x] ==> deletedKeys[x]
+//@   rangefunc 0 invariant urlKey == urlKeyOf(lastResolved)
 
 //@ func (*cacheInvalidator).InvalidateCache
 //@   implements CacheInvalidator.InvalidateCache
@@ -1030,9 +1034,13 @@ package internal
 //@   loop 0 invariant forall j int :: 0 <= j && j < i ==> b[j] == lb(s[j])
 //@   loop 0 invariant forall j int :: i <= j && j < len(b) ==> b[j] == s[j]
 //@   loop 0 decreases len(b) - i                                                                   # name: case-folding-terminates   props: C10 C03
+// lastSameOrigin: the verdict of the last sameOrigin call (ghost; lets the Location loop say
+// "what was judged same-origin has been invalidated before the next field is looked at")
+//@ ghost var lastSameOrigin bool
 //@ func sameOrigin
 //@   property C07
-//@   pure
+//@   assigns lastSameOrigin
+//@   ensures lastSameOrigin == result                                                             # ghost-update
 //@   requires a != nil && b != nil
 //@   ensures result == (lowerA(a.Scheme) == lowerA(b.Scheme) && lowerA(nameOfHost(a.Host)) == lowerA(nameOfHost(b.Host)) && effPort(a) == effPort(b))    # name: scheme-host-port
 
